@@ -1,7 +1,7 @@
 """C15 — fail-closed Python-ast -> effect-IR translator (coq/Model/Effects.v syntax).
 
 Every function/method/nested function of koala's modules becomes one IR function
-    stmt := Skip | Bind x rhs | Write x | Call rets f args | Seq | If | Loop
+    stmt := Skip | Bind x rhs | Write x | Call rets f args | CallDyn rets gs args | Seq | If | Loop
     rhs  := Rhs fresh oo or rr      (Fresh / View / Union / Box / Alias / Extend / Join)
 The TRUSTED part is the classification table below (which numpy / matplotlib / pysat /
 builtin calls and which syntax forms allocate, alias or write).  Anything not in the
@@ -84,6 +84,7 @@ def extend(x, ds):
 
 
 # IR statements as nested tuples: ("skip",) ("bind",x,D) ("write",x) ("call",rets,fname,args)
+# ("calldyn",rets,args)  call of a run-time callable (candidates = all escaping koala functions, filled in at emission)
 # ("seq",[..]) ("if",s1,s2) ("loop",s)
 def seq(stmts):
     out = []
@@ -929,8 +930,11 @@ class FT2(FT):
         if not isinstance(cb, ast.Name):
             fail(node, "call of a computed callable expression", self.f.qual)
         c = self.ex(cb)
-        self.note(f"line {node.lineno}: call of a run-time callable `{ast.unparse(cb)[:40]}` treated as effect-free, result may alias its arguments")
-        return D(True, (), frozenset().union(c.srcs(), *[x.srcs() for x in elem_args]))
+        self.note(f"line {node.lineno}: call of a run-time callable `{ast.unparse(cb)[:40]}`: CallDyn (any koala function used as a first-class value, on any arguments; or a foreign effect-free callable)")
+        r = self.newvar("$dyn")
+        args = [self.GLOB, self.tmp_copy(c)] + [self.tmp_copy(x) for x in elem_args]
+        self.emit(("calldyn", [r], args))
+        return alias(r)
 
     def ex_Call(self, e):
         f = e.func
@@ -1336,6 +1340,8 @@ def coq_stmt(s, idx, ind=2):
         return p + f"(Write {s[1]})"
     if k == "call":
         return p + f"(Call {coq_list(s[1])} {idx[s[2]]} {coq_list(s[3])})"
+    if k == "calldyn":
+        return p + f"(CallDyn {coq_list(s[1])} {coq_list(idx['$dyn_targets'])} {coq_list(s[2])})"
     if k == "seq":
         xs = s[1]
         out = ""
@@ -1385,6 +1391,8 @@ def translate_all(repo=None):
     for f in w.funcs:
         bodies[f.qual] = fts[f.qual].translate()
     idx = {f.qual: i for i, f in enumerate(w.funcs)}
+    # candidate callees of every run-time callable: all koala functions / closures used as first-class values
+    idx["$dyn_targets"] = sorted(idx[q] for q in w.escaping)
     info = []
     for f in w.funcs:
         t = fts[f.qual]
@@ -1402,12 +1410,14 @@ def translate_all(repo=None):
 
 def render(w, bodies, idx, info):
     out = ["(* GENERATED by translate/effects_ir.py from the current koala source — do not edit. *)",
-           "From Coq Require Import List.", "Import ListNotations.", "From Koala Require Import Model.Effects.", ""]
+           "From Coq Require Import List String.", "Import ListNotations.", "From Koala Require Import Model.Effects.", ""]
     for f, fi in zip(w.funcs, info):
         out.append(f"(* {fi['index']}: {f.qual}({', '.join(fi['params'])})  [{f.module.path.split('/src/')[-1]}:{f.node.lineno}] *)")
         out.append(f"Definition fn{fi['index']} : fundef := Fun {len(fi['params'])}\n{coq_stmt(bodies[f.qual], idx)}.")
         out.append("")
     out.append("Definition prog : program :=\n  " + coq_list(f"fn{i}" for i in range(len(info))) + ".\n")
+    out.append("(* qualified name of every IR function, by index (only used to STATE theorems about named functions) *)")
+    out.append("Definition fnames : list string :=\n  [" + ";\n   ".join('"%s"%%string' % fi["qual"] for fi in info) + "].\n")
     def entries(sel):
         return "[" + ";\n   ".join(f"({fi['index']}, {coq_list('true' if b else 'false' for b in fi['mask'])})" for fi in info if sel(fi)) + "]"
     out.append("(* public functions of the modules the property quantifies over: every formal tainted except output sinks (ax) and the self under construction *)")
